@@ -543,8 +543,9 @@ def _real_from(c):
 
 
 class _Reader(object):
-    def __init__(self, data):
+    def __init__(self, data, trace=None):
         self.d = bytes(data)
+        self.trace = trace        # list receiving one dict per base element read (typed walk)
 
     def need(self, pos, k, limit):
         if limit is not None and pos + k > limit:
@@ -616,11 +617,19 @@ class _Reader(object):
             if q != end:
                 raise RefError('malformed', 'explicit tag holds more than one element')
             return v, q
-        return self.rd_base(T, con, ln, p, limit)
+        if self.trace is None:
+            return self.rd_base(T, con, ln, p, limit)
+        rec = {'T': T, 'con': con, 'ln': ln, 'start': pos, 'cstart': p}
+        self.trace.append(rec)
+        v, q = self.rd_base(T, con, ln, p, limit, rec)
+        rec['end'] = q
+        return v, q
 
     def rd_untagged(self, T, pos, limit):
         if T['k'] == 'ANY':
             end = self.skip(pos, limit)
+            if self.trace is not None:
+                self.trace.append({'T': T, 'any': True, 'start': pos, 'cstart': pos, 'end': end, 'con': None, 'ln': None})
             return self.d[pos:end], end
         tg = self.peek_tag(pos, limit)
         for a in T['alts']:
@@ -663,7 +672,7 @@ class _Reader(object):
             raise RefError('malformed', 'string segment tagged %s%d' % (cls, num))
         return self.string_leaves(is_bits, con, ln, p, limit, out)
 
-    def rd_base(self, T, con, ln, p, limit):
+    def rd_base(self, T, con, ln, p, limit, rec=None):
         k = T['k']
         if k == 'BOOLEAN':
             c, q = self.prim(con, ln, p, limit)
@@ -687,6 +696,18 @@ class _Reader(object):
         if k in STRING_KINDS:
             leaves = []
             q = self.string_leaves(k == 'BITSTRING', con, ln, p, limit, leaves)
+            if rec is not None:
+                rec['leaves'] = [len(c) for c in leaves]
+                if con:
+                    kids = []
+                    qq = p
+                    endc = q - 2 if ln is None else q
+                    while qq < endc:
+                        c2, con2, n2, ln2, p2 = parse_header(self.d, qq)
+                        e2 = _Reader(self.d).skip(qq, None)
+                        kids.append((con2, ln2))
+                        qq = e2
+                    rec['segments'] = kids
             if k == 'BITSTRING':
                 nbits = 0
                 val = 0
@@ -727,9 +748,14 @@ class _Reader(object):
             q = p
             if k in OF_KINDS:
                 out = []
+                spans = []
                 while not done(q):
+                    q0 = q
                     v, q = self.rd(T['of'], q, lim)
                     out.append(v)
+                    spans.append((q0, q))
+                if rec is not None:
+                    rec['elements'] = spans
             elif k == 'SEQUENCE':
                 out = {}
                 for c in T['comps']:
@@ -777,6 +803,16 @@ def read(T, data, allow_rest=False):
     if q != len(r.d):
         raise RefError('trailing', '%d octet(s) after the value' % (len(r.d) - q))
     return v
+
+
+def read_traced(T, data):
+    """-> (value, trace): trace has one record per base element (type node, form, spans, string segments)."""
+    tr = []
+    r = _Reader(data, tr)
+    v, q = r.rd(T, 0, None)
+    if q != len(r.d):
+        raise RefError('trailing', '%d octet(s) after the value' % (len(r.d) - q))
+    return v, tr
 
 
 def tlv_end(data, pos=0):
